@@ -55,6 +55,7 @@ def _expect_in_state(s, N, g, p):
 
 def h_named_state(env, N, which):
     M = Mods(env)
+    n0 = len(env.coins()) if env.symbolic else 0
     res = env.run(lambda: getattr(M.st, which)(N))
     env.goal('no_exception', b_not(res.raised))
     if res.value is None:
@@ -88,7 +89,7 @@ def h_named_state(env, N, which):
             # each sign is a bijective function of its own coin: the map coins -> signs of the N stabilizers is injective
             import z3
             from symclif.values import STORE, bexpr, mkbool
-            coins = env.coins()
+            coins = env.coins()[n0:]
             fresh = [STORE.fresh('coin2', 0, c.hi) for c in coins]
             sub = [(c.e, f.e) for c, f in zip(coins, fresh)]
             signs = [eq(_expect_in_state(s, N, Z(i), 0), 1) for i in range(N)]
@@ -106,6 +107,32 @@ def h_named_state(env, N, which):
             env.observe('signs#distinct', min(2 ** N, 8))
 
 
+def h_named_state_history(env, N, which):
+    """construct a named state (or identity_map().to_state()), change it in place (rotate, flip every sign, raise the
+    rank, overwrite a row), construct it again: the second object still denotes the documented state"""
+    M = Mods(env)
+    first = env.run(lambda: getattr(M.st, which)(N))
+    if first.value is not None:
+        s1 = first.value
+        gg = env.bits('gen', (2 * N,))
+
+        def spoil():
+            s1.rotate_by(M.pa.Pauli(gg.copy(), 0))
+            s1.ps[:] = (s1.ps + 2) % 4
+            s1.gs[0] = s1.gs[-1]
+            s1.set_r(N if which != 'maximally_mixed_state' else 0)
+        sp = env.run(spoil)
+        env.goal('in_place_changes_no_exception', b_not(sp.raised))
+    h_named_state(env, N, which)
+    if first.value is not None:
+        again = env.run(lambda: getattr(M.st, which)(N))
+        if again.value is not None:
+            s3 = again.value
+            env.goal('constructed_objects_share_no_memory', not (np.shares_memory(np.asarray(s3.gs), np.asarray(s1.gs)) or np.shares_memory(np.asarray(s3.ps), np.asarray(s1.ps))))
+
+
+h_named_state_history.uses_rng = True
+h_named_state_history.variation_goals = {'sign%d_flips_with_its_coin' % i: 'signs' for i in range(4)}
 h_named_state.uses_rng = True
 h_named_state.variation_goals = {'sign%d_flips_with_its_coin' % i: 'signs' for i in range(4)}
 
@@ -251,6 +278,8 @@ def jobs(tier):
     for N in (1, 2, 3):
         for which in ('zero_state', 'one_state', 'ghz_state', 'maximally_mixed_state', 'random_bit_state'):
             J.append(dict(harness=('c12', 'h_named_state'), params=dict(N=N, which=which)))
+            if N <= 2:
+                J.append(dict(harness=('c12', 'h_named_state_history'), params=dict(N=N, which=which)))
         for r in (None, 1):
             J.append(dict(harness=('c12', 'h_random_pauli_state'), params=dict(N=N, r=r)))
         for L in range(1, N + 1):
